@@ -26,7 +26,8 @@ RefInit(e) ==
    nresp |-> 0, answered |-> 0, cur |-> NoCur, final |-> FALSE, finalWhy |-> "", errResp |-> FALSE, interim |-> 0,
    done |-> FALSE, signalled |-> FALSE, tSig |-> 0, tLastIn |-> 0, tFirstByte |-> -1, tShut |-> -1, tIdle |-> 0,
    lastEnded |-> [status |-> 0, m |-> "", total |-> 0, bodiless |-> FALSE], stalled |-> FALSE, wroteAny |-> FALSE,
-   maxHeld |-> 0, tHead1 |-> -1, kaMayHaveFired |-> FALSE, anyCut |-> FALSE, doneErr |-> FALSE]
+   maxHeld |-> 0, tHead1 |-> -1, kaMayHaveFired |-> FALSE, anyCut |-> FALSE, doneErr |-> FALSE, tFinal |-> -1, sigTok |-> 0, t408 |-> -1, wpend |-> FALSE,
+   mem0 |-> -1, tAct |-> 0, unlimited |-> (e.sock.budget < 0)]
 
 NReq(rs) == Len(rs.gt)
 Faulted(rs) == rs.rstFed \/ (rs.eofFed /\ ~rs.cfg.half_closed)
@@ -58,7 +59,8 @@ OnCall(rs, e) ==
 
 OnBodyIn(rs, e) ==
   LET i == e.i IN
-  E({"C01"}, i = rs.called /\ i >= 1 /\ e.ok /\ rs.bin + e.n <= rs.gt[i].blen,
+  \* bytes inside a malformed body up to the rejection point are not specified further
+  E({"C01"}, i = rs.called /\ i >= 1 /\ (rs.rej.at = i \/ (e.ok /\ rs.bin + e.n <= rs.gt[i].blen)),
     [rs EXCEPT !.bin = @ + e.n], "C01/BodyIn/bytes-differ-from-what-was-sent")
 
 OnBodyEnd(rs, e) ==
@@ -114,7 +116,9 @@ OnResp(rs, e) ==
           E({"C02"}, lenOk,
            E({"C02", "C03"}, MustClose(q, p, rs.cfg) => closing,
             E({"C02"}, closing => (MustClose(q, p, rs.cfg) \/ MayCloseAnyway(rs, q, p)),
+             E({"C06"}, (rs.signalled /\ rs.sigTok = i) => closing,
               [base EXCEPT !.cur = cur],
+              "C06/Graceful/in-flight-response-without-close"),
               "C02/Resp/conn/close-not-called-for"),
             "C02/Resp/conn/close-lost"),
            "C02/Resp/length-headers/" \o (IF bodiless THEN "bodiless" ELSE IF p.sized THEN "sized" ELSE "stream")),
@@ -123,23 +127,24 @@ OnResp(rs, e) ==
         IF e.i <= rs.nresp THEN "C02/Resp/second-response-to-a-request" ELSE "C02/Resp/not-in-request-order"),
    "C03/Resp/after-final/" \o rs.finalWhy)
 
-Closed(rs, cur) == 
+Closed(rs, cur, e) == 
   LET s1 == [rs EXCEPT !.answered = @ + 1, !.cur = NoCur,
                        !.lastEnded = [status |-> cur.status, m |-> (IF cur.i >= 1 /\ cur.i <= NReq(rs) THEN rs.gt[cur.i].m ELSE ""),
                                       total |-> (IF cur.i >= 1 /\ cur.i <= NReq(rs) THEN rs.pf[cur.i].total ELSE 0), bodiless |-> cur.bodiless]]
-  IN IF cur.closing THEN [s1 EXCEPT !.final = TRUE, !.finalWhy = (IF cur.standalone THEN "error-response" ELSE "close-response")]
-     ELSE s1
+  IN IF cur.closing THEN [s1 EXCEPT !.final = TRUE, !.tFinal = e.t, !.tAct = e.t,
+                                    !.finalWhy = (IF cur.standalone THEN "error-response" ELSE "close-response")]
+     ELSE [s1 EXCEPT !.tAct = e.t]
 
 OnRespEnd(rs, e) ==
   LET cur == rs.cur IN
   IF cur.k = 0 THEN rs
-  ELSE IF cur.i = 0 \/ cur.bodiless THEN Closed(rs, cur)
+  ELSE IF cur.i = 0 \/ cur.bodiless THEN Closed(rs, cur, e)
   ELSE
     LET p == rs.pf[cur.i] IN
-    IF p.none THEN Closed(rs, cur) ELSE
+    IF p.none THEN Closed(rs, cur, e) ELSE
     E({"C02"}, ExpectedComplete(p) \/ e.how = "eof",
      E({"C02"}, e.n = ExpectedLen(p),
-      E({"C02"}, e.ok, Closed(rs, cur), "C02/Body/content-differs"),
+      E({"C02"}, e.ok, Closed(rs, cur, e), "C02/Body/content-differs"),
       IF p.before_empty # 0 /\ e.n = (IF p.before_empty < 0 THEN 0 ELSE p.before_empty)
       THEN "C02/Body/length/ends-at-first-empty-chunk" ELSE "C02/Body/length"),
      "C02/Body/failed-body-looks-complete")
@@ -167,6 +172,44 @@ JunkSig(rs) ==
   ELSE IF le.m = "HEAD" /\ le.total > 0 THEN "C02/Junk/after-HEAD-response"
   ELSE "C02/Junk/after-response"
 
+(* ------------------------------- C06: time bounds ------------------------------- *)
+(* idle: every dispatched request answered, nothing of a further request received *)
+Idle(rs) == /\ rs.called = rs.answered /\ rs.cur.k = 0 /\ ~rs.final /\ ~rs.done /\ rs.called >= 1
+            /\ rs.fed = rs.gt[rs.called].end /\ ~rs.eofFed /\ ~rs.rstFed /\ ~rs.signalled /\ rs.rej.at = 0
+CanFinish(rs) == rs.sock.shutdown = "ready" /\ rs.unlimited
+HeadLate(rs, t) == rs.cfg.head_ms > 0 /\ rs.tHead1 < 0 /\ rs.called = 0 /\ t >= rs.cfg.head_ms + LAG
+OnTime(rs, t) ==
+  \* evaluated whenever virtual time is observed (Tick and Done events)
+  E({"C06"}, ~(HeadLate(rs, t) /\ ~rs.errResp /\ ~rs.done /\ rs.unlimited /\ rs.rej.at = 0),
+   E({"C06"}, ~(Idle(rs) /\ rs.cfg.ka_ms > 0 /\ CanFinish(rs) /\ t - rs.tAct >= rs.cfg.ka_ms + LAG),
+    E({"C06"}, ~(rs.cfg.disc_ms > 0 /\ ~rs.done /\
+                 (\/ (rs.final /\ t - rs.tFinal > 2 * rs.cfg.disc_ms + 2 * LAG)
+                  \/ (Idle(rs) /\ rs.cfg.ka_ms > 0 /\ t - rs.tAct > rs.cfg.ka_ms + 2 * rs.cfg.disc_ms + 2 * LAG)
+                  \/ (HeadLate(rs, t) /\ t > rs.cfg.head_ms + 2 * rs.cfg.disc_ms + 2 * LAG))),
+      rs,
+      "C06/Shutdown/outlives-disconnect-timeout"),
+    "C06/KeepAlive/idle-connection-not-closed"),
+   "C06/SlowHead/no-408-after-timeout")
+
+(* ------------------------------- C05: memory bounds ------------------------------- *)
+IN_BOUND  == 2 * 131072 + 32768 + 65536       \* unparsed input + queued heads + body read-ahead + one read
+OutBound(rs) == (IF rs.cfg.wbuf > 0 THEN rs.cfg.wbuf ELSE 32768) + rs.cfg.maxchunk + 16384
+\* qallow: decoded-but-undispatched requests that one read buffer can hold (lib/h1gen.py computes it from the request size)
+HeapBound(rs) == IN_BOUND + OutBound(rs) + 1048576 + rs.cfg.qallow
+OnMem(rs, e) ==
+  LET consumed == IF e.calls = 0 \/ e.calls > NReq(rs) THEN 0 ELSE rs.gt[e.calls].start + rs.gt[e.calls].headlen
+      inHeld == e.taken - consumed - e.handed_cur
+      s == IF rs.mem0 < 0 THEN [rs EXCEPT !.mem0 = e.live] ELSE rs
+  IN
+  E({"C05"}, e.calls > NReq(rs) \/ inHeld <= IN_BOUND + (IF e.calls = 0 THEN 0 ELSE rs.gt[e.calls].blen \div 8),
+   E({"C05"}, e.pulled - e.accepted <= OutBound(rs),
+    E({"C05"}, s.mem0 < 0 \/ e.live - s.mem0 <= HeapBound(rs) + e.harness,
+      s,
+      IF e.pulled = 0 /\ e.calls > 1000 THEN "C05/Heap/grows-with-pipelined-bodiless-responses" ELSE "C05/Heap/exceeds-configured-bound"),
+    "C05/Out/response-bytes-buffered-beyond-write-buffer"),
+   "C05/In/input-held-beyond-bound")
+
+
 ErrEndJustified(rs, e) ==
   CASE e.kind \in {"Body", "Io"}     -> SomeBodyFails(rs) \/ Faulted(rs) \/ rs.rej.kind = "chunk"
     [] e.kind = "Parse"              -> rs.rej.at # 0
@@ -176,10 +219,12 @@ ErrEndJustified(rs, e) ==
 
 OnDone(rs, e) ==
   LET s == [rs EXCEPT !.done = TRUE, !.doneErr = (e.res = "err")] IN
+  E({"C06"}, ~(Idle(rs) /\ rs.cfg.ka_ms > 0 /\ e.res = "ok" /\ e.t - rs.tAct + LAG < rs.cfg.ka_ms),
   E({"C04"}, e.res = "ok" \/ ErrEndJustified(rs, e),
    E({"C02"}, rs.called <= rs.answered + (IF rs.cur.k # 0 THEN 1 ELSE 0) \/ Faulted(rs) \/ e.res = "err", s,
      IF ChunkDrop(rs) THEN "C02/Done/unanswered-because-dropped-on-malformed-chunk" ELSE "C02/Done/dispatched-request-never-answered"),
-   "C04/Done/error-end-without-cause/" \o e.kind)
+   "C04/Done/error-end-without-cause/" \o e.kind),
+   "C06/KeepAlive/closed-before-timeout")
 
 OnEnd(rs, e) ==
   IF ~rs.epi THEN rs
@@ -192,12 +237,13 @@ OnEnd(rs, e) ==
      "C01/End/sent-request-never-dispatched"),
     "C04/End/connection-not-terminated")
 
+
 RefStep0(rs, e) ==
-  CASE e.ev = "Feed"     -> [rs EXCEPT !.fed = @ + e.n, !.tLastIn = IF e.n > 0 THEN e.t ELSE @,
+  CASE e.ev = "Feed"     -> [rs EXCEPT !.fed = @ + e.n, !.tLastIn = IF e.n > 0 THEN e.t ELSE @, !.tAct = e.t,
                                        !.tHead1 = IF NReq(rs) > 0 /\ @ < 0 /\ rs.fed + e.n >= rs.gt[1].headlen THEN e.t ELSE @]
-    [] e.ev = "Eof"      -> [rs EXCEPT !.eofFed = TRUE]
+    [] e.ev = "Eof"      -> [rs EXCEPT !.eofFed = TRUE, !.tAct = e.t]
     [] e.ev = "Rst"      -> [rs EXCEPT !.rstFed = TRUE]
-    [] e.ev = "Signal"   -> [rs EXCEPT !.signalled = TRUE, !.tSig = e.t]
+    [] e.ev = "Signal"   -> [rs EXCEPT !.signalled = TRUE, !.tSig = e.t, !.tAct = e.t]
     [] e.ev = "Call"     -> OnCall(rs, e)
     [] e.ev = "BodyIn"   -> OnBodyIn(rs, e)
     [] e.ev = "BodyEnd"  -> OnBodyEnd(rs, e)
@@ -206,11 +252,14 @@ RefStep0(rs, e) ==
     [] e.ev = "RespCut"  -> [OnRespCut(rs, e) EXCEPT !.anyCut = TRUE]
     [] e.ev = "Junk"     -> E({"C02"}, FALSE, rs, JunkSig(rs))
     [] e.ev = "Stall"    -> E({"C04"}, FALSE, rs, "C04/Stall/progress-on-spurious-poll")
-    [] e.ev = "Livelock" -> E({"C04"}, FALSE, rs, "C04/Livelock")
+    [] e.ev = "Spin"     -> rs      \* busy self-wake loop while blocked: reported in the evidence, not a clause of C01-C06
     [] e.ev = "Panic"    -> Rej("C19/Panic", "")
     [] e.ev = "Done"     -> OnDone(rs, e)
     [] e.ev = "End"      -> OnEnd(rs, e)
-    [] e.ev = "Tick"     -> [rs EXCEPT !.kaMayHaveFired = @ \/ (rs.cfg.ka_ms > 0 /\ e.t - rs.tLastIn + LAG >= rs.cfg.ka_ms)
+    [] e.ev = "Mem"      -> OnMem(rs, e)
+    [] e.ev = "HTok"     -> [rs EXCEPT !.tAct = e.t, !.sigTok = IF rs.signalled THEN e.i ELSE @]
+    [] e.ev \in {"BTok", "Writable"} -> [rs EXCEPT !.tAct = e.t]
+    [] e.ev = "Tick"     -> LET r1 == OnTime(rs, e.t) IN IF r1.tag = "rej" THEN r1 ELSE [rs EXCEPT !.kaMayHaveFired = @ \/ (rs.cfg.ka_ms > 0 /\ e.t - rs.tLastIn + LAG >= rs.cfg.ka_ms)
                                                             \/ (rs.cfg.head_ms > 0 /\ rs.called = 0 /\ e.t + LAG >= rs.cfg.head_ms)]
     [] OTHER -> rs          \* Writable, HTok, BTok, WritePend, Shutdown, Quiesce, Mem: bookkeeping
 
